@@ -205,6 +205,7 @@ UNUSED_PARAM_EXEMPT = {
     ("BayesianModelSampling.forward_sample", "n_jobs"): "kept for API compatibility",
     ("BayesianModelSampling.likelihood_weighted_sample", "n_jobs"): "kept for API compatibility",
     ("LinearEstimator.__init__", "graph"): "outside the anchored modules",
+    ("BayesianModelInference._reduce_marg", "variable_evid"): "private helper: the states arrive as numbers (fix D44), the list of names stays in the signature for its single caller",
 }
 
 
@@ -589,13 +590,48 @@ def state_domain_rule(rc, prefixes):
                     if payload is not None and is_num_expr(payload, nums):
                         nums.add(n.targets[0].id)
                         changed = True
+        # state NUMBERS produced by enumerating cardinalities: `for tup in product(*[range(card) ...])`, and what is unpacked from zip(..., tup)
+        num_tuples: Set[str] = set()
+        for n in ast.walk(f.node):
+            if isinstance(n, (ast.For, ast.comprehension)) and isinstance(n.target, ast.Name) and isinstance(n.iter, ast.Call) and call_name(n.iter) == "product":
+                if any(isinstance(x, ast.Call) and call_name(x) == "range" for x in ast.walk(n.iter)):
+                    num_tuples.add(n.target.id)
+        for n in ast.walk(f.node):
+            if isinstance(n, (ast.For, ast.comprehension)) and isinstance(n.target, ast.Tuple) and isinstance(n.iter, ast.Call) and call_name(n.iter) == "zip":
+                for pos, a in enumerate(n.iter.args):
+                    if isinstance(a, ast.Name) and a.id in num_tuples and pos < len(n.target.elts) and isinstance(n.target.elts[pos], ast.Name):
+                        nums.add(n.target.elts[pos].id)
+        # the "try it as a name, fall back to the raw value" idiom is ambiguous for integer state names
+        for n in ast.walk(f.node):
+            if isinstance(n, ast.Try) and any(h.type is not None and "KeyError" in norm(h.type) for h in n.handlers):
+                tr = [x for st_ in n.body for x in ast.walk(st_) if isinstance(x, ast.Call) and call_name(x) == "get_state_no"]
+                raw = [st_ for h in n.handlers for st_ in h.body if isinstance(st_, ast.Assign) and isinstance(st_.value, ast.Name)]
+                if tr and raw:
+                    rc.fail(f, n, f"{f.qual}: a value is translated with get_state_no and, on KeyError, used as it is: callers pass state NUMBERS, and with integer state names that are not "
+                            "0..k-1 in order (e.g. [1, 2]) a number is silently read as the NAME of another state", construct=f"{f.qual} name-or-number fallback")
         if not nums:
             continue
+        defs1 = {}
+        for n in ast.walk(f.node):
+            if isinstance(n, ast.Assign) and len(n.targets) == 1 and isinstance(n.targets[0], ast.Name):
+                defs1.setdefault(n.targets[0].id, []).append(n.value)
         for c in ast.walk(f.node):
             if not isinstance(c, ast.Call):
                 continue
             nm = call_name(c)
             sinks = []
+            lst = None
+            if nm == "reduce" and isinstance(c.func, ast.Attribute) and c.args and isinstance(c.args[0], ast.Name) and len(defs1.get(c.args[0].id, [])) == 1:
+                lst = defs1[c.args[0].id][0]
+            elif nm == "reduce" and isinstance(c.func, ast.Attribute) and c.args and isinstance(c.args[0], ast.ListComp):
+                lst = c.args[0]
+            if lst is not None:
+                if isinstance(lst, ast.ListComp):
+                    el = lst.elt
+                    if isinstance(el, ast.Tuple) and len(el.elts) == 2:
+                        sinks.append(el.elts[1])
+                    elif isinstance(el, ast.Call) and call_name(el) == "State" and len(el.args) == 2:
+                        sinks.append(el.args[1])
             if nm == "reduce" and isinstance(c.func, ast.Attribute) and c.args and isinstance(c.args[0], (ast.List, ast.Tuple)):
                 for el in c.args[0].elts:
                     if isinstance(el, ast.Tuple) and len(el.elts) == 2:
@@ -606,7 +642,8 @@ def state_domain_rule(rc, prefixes):
                     sinks.append(ev)
             for sk in sinks:
                 n_sink += 1
-                if is_num_expr(sk, nums) and not any(isinstance(x, ast.Call) and call_name(x) in ("get_state_names",) for x in ast.walk(sk)):
+                if is_num_expr(sk, nums) and not any(isinstance(x, ast.Call) and call_name(x) in ("get_state_names",) for x in ast.walk(sk)) \
+                        and not any(isinstance(x, ast.Attribute) and x.attr == "no_to_name" for x in ast.walk(sk)):
                     rc.fail(f, c, f"{f.qual}: `{norm(sk, 60)}` is already a state NUMBER (it comes from name_to_no / get_state_no) but `{nm}` takes state NAMES and translates them "
                             "again: with integer state names that differ from their positions the evidence is applied to another state", construct=f"{f.qual} state number passed as name to {nm}")
     rc.ob(f"state-domain typing: {n_fn} function(s) scanned, {n_sink} name-taking sink(s) in functions that also hold translated state numbers")
